@@ -107,9 +107,36 @@ def classify(e):
     return "other:" + type(e).__name__ + ":" + m[:60]
 
 
+def install_observers():
+    """record, without touching the repository, what the OOM killer sees and whom it kills"""
+    from eudoxia.executor.resource_pool import ResourcePool
+    from eudoxia.executor.container import Container
+    if getattr(ResourcePool, "_verif_wrapped", False):
+        return
+    orig_killer = ResourcePool._run_out_of_memory_killer
+    orig_kill = Container.kill
+
+    def killer(self):
+        self._verif_snap = [(c.container_id, c.get_current_memory_usage(), c.assignment.ram, c.is_completed())
+                            for c in self.active_containers]
+        self._verif_victims = []
+        return orig_killer(self)
+
+    def kill(self, *a, **kw):
+        v = getattr(self.pool, "_verif_victims", None)
+        if v is not None:
+            v.append(self.container_id)
+        return orig_kill(self, *a, **kw)
+
+    ResourcePool._run_out_of_memory_killer = killer
+    Container.kill = kill
+    ResourcePool._verif_wrapped = True
+
+
 class Impl:
     """the real objects for one scenario"""
     def __init__(self, sc):
+        install_observers()
         from eudoxia.executor import Executor
         from eudoxia.workload.pipeline import Segment, Pipeline
         from eudoxia.workload import OperatorState
@@ -178,7 +205,9 @@ class Impl:
             D = [self.cids[c.container_id] for c in pool.suspended_containers]
             pools.append({"ac": pool.avail_cpu_pool, "ar": self.qv(pool.avail_ram_pool), "cons": self.qv(pool.consumed_ram_gb),
                           "capc": pool.max_cpu_pool, "capr": self.qv(pool.max_ram_pool), "A": A, "S": S, "D": D,
-                          "done": pool.num_completed})
+                          "done": pool.num_completed,
+                          "K": {"snap": [[self.cids[c], self.qv(m), self.qv(r), int(d)] for c, m, r, d in getattr(pool, "_verif_snap", [])],
+                                "victims": [self.cids[c] for c in getattr(pool, "_verif_victims", [])]}})
         return {"st": self.states(), "cnt": self.counts(), "pools": pools}
 
     def results(self, res):
@@ -319,6 +348,8 @@ def project(o, proj):
                     pp["S"] = [[row[i] for i in proj["S"]] for row in p["S"]]
                 if proj.get("D"):
                     pp["D"] = p["D"]
+                if proj.get("K"):
+                    pp["K"] = p.get("K")
                 pools.append(pp)
             ps["pools"] = pools
             out["state"] = ps
@@ -332,7 +363,7 @@ def project(o, proj):
 
 
 FULL = {"st": True, "cnt": True, "pool": ["ac", "ar", "cons", "capc", "capr", "done"], "A": list(range(8)), "S": list(range(6)),
-        "D": True, "res": list(range(7))}
+        "D": True, "K": True, "res": list(range(7))}
 
 
 def first_divergence(impl_obs, model_obs, proj=FULL):
